@@ -1,7 +1,7 @@
 SPECIFICATION Spec
 CONSTANTS
   MaxN = 3
-  MaxFaults = 2
+  MaxFaults = 1
   MaxTests = 2
   TestKinds = {"good","bad","skipdeco"}
   Repeats = {1,2}
